@@ -202,6 +202,8 @@ func extractC15(c *Ctx) {
 		}
 		if body == "for_,w:=rangea.watchers{w."+m.name+"("+m.arg+")};" {
 			agg = append(agg, m.name+":range-watchers:w."+m.name)
+		} else if body == `fori,w:=rangea.watchers{verifhook.Point("aggregate.update.member",target.Name,strconv.Itoa(i))w.UpdateDesc(target)};` {
+			agg = append(agg, m.name+":range-watchers:hook:aggregate.update.member,w."+m.name)
 		} else {
 			agg = append(agg, "?:"+m.name+":"+body)
 		}
